@@ -500,6 +500,12 @@ def u32FromStr (w : Bytes) : Option Nat :=
   if ds.isEmpty || !ds.all isDigit then none
   else let v := digitsVal ds; if v ≤ U32_MAX then some v else none
 
+/-- `collect::<BTreeMap<_,_>>()` of (id, object) pairs: later pairs overwrite earlier ones
+(kept at the position of the first occurrence; the order is irrelevant for the merge) -/
+def dedupLast (l : List (ObjId × Obj)) : List (ObjId × Obj) :=
+  l.foldl (fun (acc : List (ObjId × Obj)) (p : ObjId × Obj) =>
+    if acc.any (fun q => q.1 == p.1) then acc.map (fun q => if q.1 == p.1 then (q.1, p.2) else q) else acc ++ [p]) []
+
 /-- `ObjectStream::new` on an unfiltered stream: the (id, object) pairs in index order -/
 def objStmObjects (d : Dict) (content : Bytes) : Outcome (List (ObjId × Obj)) :=
   if d.has FILTER then .err "ext" else
@@ -516,7 +522,8 @@ def objStmObjects (d : Dict) (content : Bytes) : Outcome (List (ObjId × Obj)) :
     | none => .err "N"
     | some _ =>
       let nums := (splitWs (block.length + 1) block).map u32FromStr
-      .ok (pairs first nums)
+      -- the pairs are collected into a `BTreeMap`: a number listed twice keeps its LAST object
+      .ok (dedupLast (pairs first nums))
 where
   pairs (first : Nat) : List (Option Nat) → List (ObjId × Obj)
     | a :: b :: rest =>
